@@ -179,9 +179,162 @@ def startsWithSel : Name → Bool
 
 theorem startsWithSel_sel (r : Name) : startsWithSel (n_sel ++ r) = true := rfl
 
-theorem sel_name_inj {T T' : Name} {k k' : Nat} (hT : noDigitEnd T = true) (hT' : noDigitEnd T' = true)
-    (h : n_sel ++ T ++ natDigits k = n_sel ++ T' ++ natDigits k') : k = k' := by
-  rw [List.append_assoc, List.append_assoc] at h
-  exact digit_suffix_inj hT hT' (List.append_cancel_left h)
+/-- `T ++ "_" ++ itoa(k)` determines `k` (and `T`), whatever the type names are: the separator is not
+    a digit, so the digits at the end are exactly the counter (fix 04; without the separator this
+    fails for type names ending in a digit — finding F-20g). -/
+theorem sep_suffix_inj {T T' : Name} {k k' : Nat}
+    (h : T ++ [95] ++ natDigits k = T' ++ [95] ++ natDigits k') : k = k' := by
+  have hr := congrArg List.reverse h
+  simp only [List.reverse_append, List.reverse_cons, List.reverse_nil, List.nil_append, List.append_assoc,
+    List.singleton_append] at hr
+  have := digits_prefix_unique _ _ _ _
+    (fun c hc => natDigits_all k c (List.mem_reverse.mp hc))
+    (fun c hc => natDigits_all k' c (List.mem_reverse.mp hc))
+    (fun c r hc => by injection hc with h1 _; subst h1; decide)
+    (fun c r hc => by injection hc with h1 _; subst h1; decide) hr
+  exact natDigits_inj (by have := congrArg List.reverse this; simpa using this)
+
+theorem sel_name_inj {T T' : Name} {k k' : Nat}
+    (h : n_sel ++ T ++ [95] ++ natDigits k = n_sel ++ T' ++ [95] ++ natDigits k') : k = k' := by
+  rw [List.append_assoc, List.append_assoc, List.append_assoc, List.append_assoc] at h
+  have h' := List.append_cancel_left h
+  rw [← List.append_assoc, ← List.append_assoc] at h'
+  exact sep_suffix_inj h'
+
+/-! ### Enum constants (fix 05) are pairwise distinct -/
+
+theorem toLower_ne_95 {c : Nat} (h : c ≠ 95) : toLower c ≠ 95 := by
+  unfold toLower; split <;> omega
+
+theorem toUpper_ne_95 {c : Nat} (h : c ≠ 95) : toUpper c ≠ 95 := by
+  unfold toUpper; split <;> omega
+
+theorem splitOn_no_sep (sep : Nat) : ∀ (n : Name), ∀ p ∈ splitOn sep n, ∀ c ∈ p, c ≠ sep := by
+  intro n
+  induction n with
+  | nil => intro p hp c hc; simp [splitOn] at hp; subst hp; cases hc
+  | cons a as ih =>
+    intro p hp c hc
+    unfold splitOn at hp
+    by_cases ha : a = sep
+    · simp [ha] at hp
+      rcases hp with rfl | hp
+      · cases hc
+      · exact ih p hp c hc
+    · have hne : (a == sep) = false := by simpa using ha
+      simp only [hne, Bool.false_eq_true, if_false] at hp
+      cases hs : splitOn sep as with
+      | nil =>
+        simp [hs] at hp
+        subst hp
+        simp at hc
+        subst hc
+        exact ha
+      | cons q qs =>
+        simp [hs] at hp
+        rcases hp with rfl | hp
+        · rcases List.mem_cons.mp hc with rfl | hc
+          · exact ha
+          · exact ih q (by rw [hs]; exact List.mem_cons_self) c hc
+        · exact ih p (by rw [hs]; exact List.mem_cons_of_mem _ hp) c hc
+
+/-- The camel-cased part of a constant name contains no underscore. -/
+theorem camel_no_underscore (v : Name) :
+    ∀ c ∈ ((splitOn 95 v).map (fun p => title (lowerAll p))).flatten, c ≠ 95 := by
+  intro c hc
+  obtain ⟨l, hl, hcl⟩ := List.mem_flatten.mp hc
+  obtain ⟨p, hp, rfl⟩ := List.mem_map.mp hl
+  have hno := splitOn_no_sep 95 v p hp
+  cases p with
+  | nil => simp [lowerAll, title] at hcl
+  | cons a as =>
+    simp only [lowerAll, List.map_cons, title, List.mem_cons] at hcl
+    rcases hcl with rfl | hcl
+    · exact toUpper_ne_95 (toLower_ne_95 (hno a List.mem_cons_self))
+    · obtain ⟨b, hb, rfl⟩ := List.mem_map.mp hcl
+      exact toLower_ne_95 (hno b (List.mem_cons_of_mem _ hb))
+
+theorem insertName_perm (n : Name) : ∀ ms : List Name, (insertName n ms).Perm (n :: ms) := by
+  intro ms
+  induction ms with
+  | nil => exact List.Perm.refl _
+  | cons m ms ih =>
+    unfold insertName
+    split
+    · exact List.Perm.refl _
+    · exact (List.Perm.cons m ih).trans (List.Perm.swap n m ms)
+
+theorem sortNames_perm : ∀ ns : List Name, (sortNames ns).Perm ns := by
+  intro ns
+  induction ns with
+  | nil => exact List.Perm.refl _
+  | cons n ns ih =>
+    unfold sortNames
+    exact (insertName_perm n _).trans (List.Perm.cons n ih)
+
+/-- What the `used` set of `enumConstsAux` contains. -/
+def UsedShape (nm : Name) (seen : List Name) (u : Name) : Prop :=
+  u = nm ∨ (∃ part, u = nm ++ part ∧ ∀ c ∈ part, c ≠ 95) ∨ (∃ v ∈ seen, u = nm ++ [95] ++ v)
+
+theorem enumConstsAux_nodup (nm : Name) : ∀ (vs seen used : List Name),
+    (∀ u ∈ used, UsedShape nm seen u) → (∀ v ∈ vs, v ∉ seen) → vs.Nodup →
+    ((enumConstsAux nm vs used).map (fun c => c.1)).Nodup ∧
+    ∀ c ∈ (enumConstsAux nm vs used).map (fun c => c.1), c ∉ used := by
+  intro vs
+  induction vs with
+  | nil => intro seen used _ _ _; simp [enumConstsAux]
+  | cons v vs ih =>
+    intro seen used hused hfresh hnd
+    simp only [List.nodup_cons] at hnd
+    simp only [enumConstsAux, List.map_cons, List.nodup_cons, List.mem_cons, forall_eq_or_imp]
+    -- the chosen name is not in `used` and has one of the shapes
+    have hv : v ∉ seen := hfresh v List.mem_cons_self
+    have hc' : (if used.contains (constName nm v) then nm ++ [95] ++ v else constName nm v) ∉ used ∧
+        UsedShape nm (v :: seen) (if used.contains (constName nm v) then nm ++ [95] ++ v else constName nm v) := by
+      by_cases hcon : used.contains (constName nm v) = true
+      · simp only [hcon, if_true]
+        refine ⟨?_, Or.inr (Or.inr ⟨v, List.mem_cons_self, rfl⟩)⟩
+        intro hmem
+        rcases hused _ hmem with h | ⟨part, h, hp⟩ | ⟨v', hv', h⟩
+        · have := congrArg List.length h
+          simp at this
+        · rw [List.append_assoc] at h
+          have := List.append_cancel_left h
+          exact hp 95 (by rw [← this]; simp) rfl
+        · rw [List.append_assoc, List.append_assoc] at h
+          have := List.append_cancel_left h
+          simp at this
+          exact hv (this ▸ hv')
+      · simp only [hcon, Bool.false_eq_true, if_false]
+        refine ⟨by simpa using hcon, Or.inr (Or.inl ⟨_, rfl, camel_no_underscore v⟩)⟩
+    obtain ⟨hnotin, hshape⟩ := hc'
+    have hused' : ∀ u ∈ (if used.contains (constName nm v) then nm ++ [95] ++ v else constName nm v) :: used,
+        UsedShape nm (v :: seen) u := by
+      intro u hu
+      rcases List.mem_cons.mp hu with rfl | hu
+      · exact hshape
+      · rcases hused u hu with h | h | ⟨v', hv', h⟩
+        · exact Or.inl h
+        · exact Or.inr (Or.inl h)
+        · exact Or.inr (Or.inr ⟨v', List.mem_cons_of_mem _ hv', h⟩)
+    have hfresh' : ∀ w ∈ vs, w ∉ v :: seen := by
+      intro w hw hmem
+      rcases List.mem_cons.mp hmem with rfl | hmem
+      · exact hnd.1 hw
+      · exact hfresh w (List.mem_cons_of_mem _ hw) hmem
+    obtain ⟨ih1, ih2⟩ := ih (v :: seen) _ hused' hfresh' hnd.2
+    refine ⟨⟨?_, ih1⟩, hnotin, ?_⟩
+    · intro hmem
+      exact ih2 _ hmem List.mem_cons_self
+    · intro c hc hcu
+      exact ih2 c hc (List.mem_cons_of_mem _ hcu)
+
+/-- The constants generated for an enum with distinct values are pairwise distinct — and distinct
+    from the type name. -/
+theorem enumConsts_nodup (nm : Name) (vs : List Name) (h : vs.Nodup) :
+    ((enumConsts nm vs).map (fun c => c.1)).Nodup :=
+  (enumConstsAux_nodup nm (sortNames vs) [] [nm]
+    (fun u hu => by simp at hu; exact Or.inl hu) (fun _ _ hm => nomatch hm)
+    ((sortNames_perm vs).nodup_iff.mpr h)).1
 
 end ApiFu.C20
